@@ -106,7 +106,9 @@ class Gen:
             return self.bint_atom()
         # sibling duplication: reuse an earlier sub-recipe (same objects -> hash-consed, shared binders)
         if self.made[kind] and rng.random() < 0.08:
-            return rng.choice(self.made[kind])
+            pick = rng.choice(self.made[kind])
+            if allow_indep or not has_indep(pick):      # no Independent inside an Independent (its reals_var
+                return pick                             # would be re-typed / captured by the outer diag_var)
         cons = ["reduce", "reduce", "lamget", "cat", "subs", "subs"]
         if kind == "real":
             cons += ["contr", "contr", "binary", "binary"]
@@ -1242,8 +1244,13 @@ def correspond(ctx):
     enum_stream(ctx)
     clean_stream(ctx, 1200 if quick else 12000)
     extras_stream(ctx, 80 if quick else 600)
-    shared_binder_stream(ctx)
-    approximate_stream(ctx)
+    for name, fid, stream in (("shared-binder", KF, shared_binder_stream), ("approximate", KF2, approximate_stream)):
+        try:
+            stream(ctx)
+        except DECLINE + (RecursionError,) as e:
+            # the construction itself raises on this tree: the finding cannot be reproduced (a decline, not a value)
+            ctx.count(f"dedicated:{fid}:construction-raised:{type(e).__name__}")
+            ctx.known(fid, False)
     ctx.exhaustive = False
     ctx.assumptions.append("MarkovProduct, Integrate, Scatter, Approximate are outside the shared Lean Term: checked "
                            "against Python oracles (naive_sequential_sum_product, explicit sums) only")
